@@ -237,6 +237,30 @@ fn observe<E: Pairing>(who: &str, a: &N, a2: &N, b: &N) -> Result<Vec<(String, V
     o.push(("e(aG1,bG2)/compressed".into(), ser(&e_pq, true)));
     o.push(("e(aG1,bG2)/uncompressed".into(), ser(&e_pq, false)));
     o.push(("e(G1,G2)".into(), ser(&e_gg, true)));
+    // products of pairings with the point at infinity in every position (first, middle, last; either side)
+    {
+        let (o1, o2) = (E::G1Affine::zero(), E::G2Affine::zero());
+        let cases: Vec<(&str, Vec<E::G1Affine>, Vec<E::G2Affine>)> = vec![
+            ("[O,P][Q,Q]", vec![o1, p], vec![q, q]),
+            ("[P,O][Q,Q]", vec![p, o1], vec![q, q]),
+            ("[P,P2][O,Q]", vec![p, p2], vec![o2, q]),
+            ("[P,O,P2][Q,Q,Q']", vec![p, o1, p2], vec![q, q, qdbl]),
+            ("[P,P2,G1,aG1+a2G1,-aG1][Q,O,Q',G2,Q]", vec![p, p2, g1, psum, pneg], vec![q, o2, qdbl, g2, q]),
+            ("[O][O]", vec![o1], vec![o2]),
+        ];
+        for (name, ps, qs) in cases {
+            let got = E::multi_pairing(ps.clone(), qs.clone());
+            let mut want = PairingOutput::<E>::zero();
+            for (a1, b1) in ps.iter().zip(qs.iter()) {
+                want += E::pairing(*a1, *b1);
+            }
+            if got != want {
+                return Err(format!("{who}: multi_pairing{name} is not the product of the pairings"));
+            }
+            o.push((format!("multi_pairing{name}"), ser(&got, true)));
+            o.push((format!("multi_miller_loop{name}"), ser(&E::multi_miller_loop(ps, qs).0, false)));
+        }
+    }
     let multi = E::multi_pairing([p, p2], [q, q]);
     o.push(("multi_pairing".into(), ser(&multi, true)));
     let ml = E::multi_miller_loop([p], [q]);
